@@ -228,7 +228,12 @@ func C11(t *testing.T, ch *choice.Source, opt harness.Options, env *Env) harness
 	everKernel := false
 	var stale *staleMon
 
+	var mirror *MetricsMirror
 	apps := func(p *Platform) []App {
+		if c05 && c.Spec.Timing {
+			// C05: "every reported counter": the tracers the reporter attaches under -report-all
+			mirror = AttachMetrics(p)
+		}
 		if c.Spec.Timing {
 			stale = attachStaleMon(p)
 		}
@@ -429,8 +434,15 @@ func C11(t *testing.T, ch *choice.Source, opt harness.Options, env *Env) harness
 			res.Sample = map[string]any{"config": c, "operations": opsLog}
 		}
 		if c05 {
+			counters := map[string]string{}
+			if mirror != nil {
+				var rows int
+				counters, rows = mirror.Digests()
+				probes["reported_counter_rows_compared"] = uint64(rows)
+			}
 			res.Sample = map[string]any{"config": c, "operations": opsLog, "observables": map[string]any{
 				"final_time": sr.SimTime, "times_at_api_returns": obsTimes, "events": sr.Events, "data_digest": fmt.Sprint(dataDigest),
+				"counters": counters,
 			}, "switches": sr.Switches}
 		}
 		return res
